@@ -280,6 +280,14 @@ impl Ctx {
         }
         let mut viol_sorted: Vec<&Violation> = acc.viol.iter().collect();
         viol_sorted.sort_by_key(|v| (v.input.size(), v.clause.clone(), v.input.to_json().to_string()));
+        // one (smallest) witness per (clause, variant, profile) first, then the rest
+        let mut seen = std::collections::BTreeSet::new();
+        let (mut firsts, mut rest): (Vec<&Violation>, Vec<&Violation>) = (vec![], vec![]);
+        for v in viol_sorted {
+            if seen.insert(Acc::vkey(v)) { firsts.push(v) } else { rest.push(v) }
+        }
+        firsts.extend(rest);
+        let viol_sorted = firsts;
         let mut replay_paths = vec![];
         for (i, v) in viol_sorted.iter().take(30).enumerate() {
             let p = replay_dir.join(format!("{}-{:03}.json", self.prop, i + 1));
